@@ -1,17 +1,75 @@
-(* C06 — parameterised rules behave like their expansion (statements are extended below).
-   MODEL exec (Model.v): Call / RefL / argument passing as the generated code does it
-   (rule function, local value, inline-Python value, wrapped string literal, lifted
-   argument function with its sorted free variables, arity check at invocation). *)
+(* C06 — parameterised rules behave like their expansion.
+   SPEC (Spec.peg, clauses Call and RefL): T(args) is the body of T evaluated in
+   a scope of its own in which every parameter is bound — positionally, then by
+   keyword — to its argument: a rule, a value of the caller, a literal, or an
+   argument EXPRESSION together with the values of the caller's names it
+   mentions (a closure: the argument substituted for the parameter, evaluated
+   where and when the body uses the parameter).
+   MODEL (Model.exec): what the generated code does — argumentize, lifted
+   argument functions with their sorted free variables, _ParseFunction, arity
+   check at invocation, the callee's fresh Python locals. *)
 From Coq Require Import List Arith Bool.
 Import ListNotations.
-Require Import Model.
+Require Import Model Spec Refine.
 
-(* two instantiations of one template at one position with different arguments are
-   independent, and a nested instantiation sees its own argument *)
+(* the refinement theorem covers Call and RefL: the generated calling convention
+   implements the specification, never gets stuck (no TypeError / NameError) where
+   the specification is defined, and instantiations cannot influence each other
+   (the callee's locals are its own; the caller's are untouched: sub E (locals s')) *)
+Theorem C06_calls_refine_spec :
+  forall (g funs : list (list nat * expr)) (ignored : option nat)
+         (t : list nat) (rx : nat -> nat -> option nat),
+    (forall r ps b, nth_error g r = Some (ps, b) -> wf g funs ignored t rx ps b) ->
+    (forall fid ps b, nth_error funs fid = Some (ps, b) -> wf g funs ignored t rx ps b) ->
+    (forall r, ignored = Some r -> exists es, nth_error g r = Some ([], Skip es)) ->
+    forall n e sc E s, wf g funs ignored t rx sc e -> scope_of sc E -> sub E (locals s) ->
+      match peg g funs ignored t rx n E e (pos s), exec true g funs ignored t rx n e s with
+      | Fuel, OutOfFuel => True
+      | Raise, _ => True
+      | Match v p', Done s' => status s' = true /\ result s' = v /\ pos s' = p' /\ sub E (locals s')
+      | Fails, Done s' => status s' = false /\ always e = false
+                          /\ (partial true e = false -> pos s' = pos s) /\ sub E (locals s')
+      | _, _ => False
+      end.
+Proof. exact exec_refines_peg. Qed.
+Print Assumptions C06_calls_refine_spec.
+
+(* what the specification says *)
+Theorem C06_call_is_body_with_parameters_bound : forall g funs ig t rx n E r ps b args en p,
+  nth_error g r = Some (ps, b) -> bind_args E ps args [] = Some en ->
+  peg g funs ig t rx (S n) E (Call (inl r) args) p = peg g funs ig t rx n en b p.
+Proof. intros. cbn [peg call_target]. now rewrite H, H0. Qed.
+Print Assumptions C06_call_is_body_with_parameters_bound.
+
+Theorem C06_parameter_use_is_the_argument_expression : forall g funs ig t rx n E x fid given ps b p,
+  lookup x E = Some (VClos fid given) -> nth_error funs fid = Some (ps, b) -> length ps = length given ->
+  peg g funs ig t rx (S n) E (RefL x) p = peg g funs ig t rx n (combine ps given) b p.
+Proof. intros. cbn [peg]. rewrite H, H0. apply Nat.eqb_eq in H1. now rewrite H1. Qed.
+Print Assumptions C06_parameter_use_is_the_argument_expression.
+
+(* keyword arguments bind by name, positional ones in order; the callee's scope is exactly its parameters *)
+Theorem C06_callee_scope_is_its_parameters : forall L ps args en,
+  bind_args L ps args [] = Some en -> forall x, In x ps <-> exists v, lookup x en = Some v.
+Proof. exact scope_of_bind_args. Qed.
+Print Assumptions C06_callee_scope_is_its_parameters.
+
+(* non-vacuity: two instantiations of one template at one position with different arguments,
+   and a data-dependent argument that captures a name of the call site *)
 Definition ex_g : list (list nat * expr) :=
   [([], Seq [Call (inl 1) [(None, AStrLit [97] false)]; Call (inl 1) [(None, AStrLit [98] false)]]);
    ([1], Seq [RefL 1; RefL 1])].
 Example C06_two_instantiations :
-  match exec true ex_g [] None [97; 97; 98; 98] (fun _ _ => None) 20 (Ref 0) (fresh 0) with
-  | Done s => status s = true /\ pos s = 4 | _ => False end.
+  peg ex_g [] None [97; 97; 98; 98] (fun _ _ => None) 20 [] (Ref 0) 0
+  = Match (VList [VList [VStr [97]; VStr [97]]; VList [VStr [98]; VStr [98]]]) 4
+  /\ match exec true ex_g [] None [97; 97; 98; 98] (fun _ _ => None) 20 (Ref 0) (fresh 0) with
+     | Done s => status s = true /\ pos s = 4 | _ => False end.
 Proof. vm_compute. auto. Qed.
+(* let n = "a" in T(x = (n-dependent expression)): the closure carries the value of n *)
+Definition ex_g2 : list (list nat * expr) :=
+  [([], Let 2 false (Str [97] false) (Call (inl 1) [(None, AFun 0 [2])]));
+   ([1], Seq [RefL 1; RefL 1])].
+Definition ex_funs2 : list (list nat * expr) := [([2], Seq [Str [98] false; Py (PVar 2)])].
+Example C06_captured_name :
+  peg ex_g2 ex_funs2 None [97; 98; 98] (fun _ _ => None) 20 [] (Ref 0) 0
+  = Match (VList [VList [VStr [98]; VStr [97]]; VList [VStr [98]; VStr [97]]]) 3.
+Proof. vm_compute. reflexivity. Qed.
